@@ -454,7 +454,6 @@ func constArray(s *Sort, v *Term) *Term {
 	return intern(t)
 }
 
-
 // initial returns the entry-state array for a heap key that has not been written yet.
 func (h *Heap) initial(key string) *Term {
 	switch {
